@@ -457,9 +457,100 @@ def gen_c12_pairs(n, seed):
     return [pairs_script(i, a, b, rng.randint(0, 1)) for (i, a, b) in space]
 
 
+def boundary_script(n, victim, leaf, edge, prefix, watch, rng):
+    """One node with n children (branch bytes spread over 0..255, the ends 0x00 and 0xff included when `edge`),
+    optionally holding a value itself; one committed transaction removes the child at position `victim`
+    (first/middle/last) and, in `twice` mode, a second one; every key (present and removed), every prefix and a
+    full scan are then read from the transaction, the new tree and the old tree, and a key is inserted again."""
+    ps = PartScript(rng)
+    if edge:
+        bytes_ = sorted(set([0, 255] + [(i * 255) // max(1, n - 1) for i in range(n)]))[:n]
+        while len(bytes_) < n:
+            c = rng.randint(1, 254)
+            if c not in bytes_:
+                bytes_.append(c)
+        bytes_ = sorted(bytes_)
+        if 255 not in bytes_:
+            bytes_[-1] = 255
+    else:
+        bytes_ = sorted(rng.sample(range(1, 255), n))
+    keys = [prefix + [b_] for b_ in bytes_]
+    deep = [keys[0] + [1], keys[-1] + [2]]          # children below the two ends: the ends are inner nodes
+    allkeys = keys + deep + ([list(prefix)] if leaf else []) + [prefix + [bytes_[0] + 1 if bytes_[0] < 254 else 7]]
+    t0 = ps.new_tree_id()
+    ps.add(op="new", t=t0, ro=False)
+    x = ps.new_txn_id()
+    ps.add(op="begin", x=x, t=t0, lin=True)
+    order = keys + (deep if n % 2 else [])
+    rng.shuffle(order)
+    for k in order:
+        ps.add(op="insert", x=x, k=k, v=rng.randint(1, 9), w=0)
+    if leaf:
+        ps.add(op="insert", x=x, k=list(prefix), v=5, w=0)
+    t1 = ps.new_tree_id()
+    ps.add(op="commitnotify" if watch else "commit", x=x, t=t1)
+    vi = {"first": 0, "middle": n // 2, "last": n - 1}[victim]
+    x2 = ps.new_txn_id()
+    ps.add(op="begin", x=x2, t=t1, lin=True)
+    if watch:
+        for k in (keys[vi], keys[(vi + 1) % n], list(prefix)):
+            ps.add(op="get", s=tree_src(t1), k=k, w=ps.new_chan_id())
+            f = ps.new_iter_id()
+            ps.add(op="prefix", s=tree_src(t1), k=k, f=f, w=ps.new_chan_id())
+    ps.add(op="delete", x=x2, k=keys[vi])
+    for src in (txn_src(x2),):
+        for k in allkeys:
+            ps.add(op="get", s=src, k=k, w=0)
+        f = ps.new_iter_id()
+        ps.add(op="prefix", s=src, k=keys[vi], f=f, w=0)
+        ps.add(op="all", s=src)
+    t2 = ps.new_tree_id()
+    ps.add(op="commitnotify" if watch else "commit", x=x2, t=t2)
+    for src in (tree_src(t2), tree_src(t1)):
+        for k in allkeys:
+            ps.add(op="get", s=src, k=k, w=0)
+        for k in (keys[vi], list(prefix), keys[-1]):
+            f = ps.new_iter_id()
+            ps.add(op="prefix", s=src, k=k, f=f, w=0)
+            f = ps.new_iter_id()
+            ps.add(op="lowerbound", s=src, k=k, f=f)
+        ps.add(op="all", s=src)
+        ps.add(op="len", s=src)
+    # write again: the slot that was vacated, and a new branch byte
+    x3 = ps.new_txn_id()
+    ps.add(op="begin", x=x3, t=t2, lin=True)
+    ps.add(op="insert", x=x3, k=keys[vi], v=3, w=0)
+    ps.add(op="delete", x=x3, k=keys[(vi + 1) % n])
+    t3 = ps.new_tree_id()
+    ps.add(op="commitnotify" if watch else "commit", x=x3, t=t3)
+    for src in (tree_src(t3), tree_src(t2)):
+        for k in allkeys:
+            ps.add(op="get", s=src, k=k, w=0)
+        ps.add(op="all", s=src)
+    return ps.ops
+
+
+def gen_boundary(n, seed, watch=False):
+    """Enumerated: node sizes around every node-kind threshold x victim position x own value x edge bytes."""
+    rng = random.Random(seed)
+    out = []
+    for size in (2, 3, 4, 5, 6, 16, 17, 18, 37, 48, 49, 50):
+        for victim in ("first", "middle", "last"):
+            for leaf in (False, True):
+                for edge in (True, False):
+                    out.append(boundary_script(size, victim, leaf, edge, rng.choice([[], [7], [7, 255]]), watch, rng))
+    if n < len(out):
+        out = rng.sample(out, n)
+    return out
+
+
 def generate(kind, n, seed):
     if kind == "c12pairs":
         return gen_c12_pairs(n, seed)
+    if kind == "boundary":
+        return gen_boundary(n, seed)
+    if kind == "boundaryw":
+        return gen_boundary(n, seed, watch=True)
     rng = random.Random(seed)
     fn = {"c11": gen_c11, "c12": gen_c12, "c12inner": gen_c12_inner, "c12dense": gen_c12_dense}[kind]
     return [fn(rng) for _ in range(n)]
